@@ -1,4 +1,5 @@
 import TrionModel.Lemmas.ShowAsm
+import TrionModel.Lemmas.ShowText
 /-!
 # C19 — the disassembly text of an instruction assembles back to that instruction
 
@@ -29,6 +30,37 @@ theorem show_assembles (i : Instr) (a : Nat) (eval : Arg → EvalOut) (loc : Boo
 condition, enable bit are carried by the mnemonic). -/
 theorem show_mnemonic (i : Instr) (a : Nat) : mnemonic (parts i a).1 = some (template i) :=
   mnemonic_parts i a
+
+/-- C19.c  The text `Display` prints is exactly the concrete syntax (`NAME a, b, c;`, `[R + x]`, `{R0, R1}`,
+decimal integers, `l_XXXXXXXX` identifiers) of the statement `parts i a`, byte for byte — so the statement
+terminator, separators and operand order printed are those of the assembler's grammar. -/
+theorem text_eq_render (i : Instr) (a : Nat) : text i a = render (parts i a) :=
+  text_eq_render_proof i a
+
+/-- the printed label is the architectural target: the statement address plus 4 (word-aligned first for
+ADR and literal LDR) plus the offset, whenever that lies inside the address space -/
+theorem label_is_target (i : Instr) (a : Nat) (t : Nat) (h : targetOf i a = some t) (hp : Printable i a) :
+    (t : Int) = (match i with
+      | .adr _ off => (alPc a : Int) + off
+      | .ldr _ _ (.imm off) => (alPc a : Int) + off
+      | .b _ off | .bl off => (pcOf a : Int) + off
+      | _ => t) := by
+  cases i <;> simp only [targetOf] at h <;> try cases h
+  case adr d off => obtain ⟨h0, h1, h4, ht⟩ := hp; exact wrapAdd_eq _ _ (by omega) ht
+  case b c off => obtain ⟨_, _, _, h0, ht⟩ := hp; exact wrapAdd_eq _ _ h0 ht
+  case bl off => obtain ⟨_, _, _, h0, ht⟩ := hp; exact wrapAdd_eq _ _ h0 ht
+  case ldr d ad o =>
+    cases o with
+    | reg r => cases h
+    | imm off =>
+      simp only at h
+      split at h
+      · rename_i h15
+        cases h
+        simp only [Printable, h15, if_true] at hp
+        obtain ⟨h0, h1, h4, ht⟩ := hp
+        exact wrapAdd_eq _ _ (by omega) ht
+      · cases h
 
 /-- non-vacuity: a backward conditional branch at 0x20000000 and a PC-relative load are `Printable` -/
 example : Printable (.b 0 (-4)) 0x20000000 ∧ Printable (.ldr 1 15 (.imm 8)) 2 ∧ Printable (.push 0x40F0) 0 := by
